@@ -224,7 +224,89 @@ def crawl(cfg, form, full, ctx=None, max_requests=400):
     return reached, fails, nreq
 
 
+def enumerate_cases(tier, seed):
+    """the shipped deployment: the server chroots into the site, its document root is then '/' (needs root; a forked child
+    does the real chroot)"""
+    yield {"mode": "chrooted"}
+
+
+def _check_chrooted(case, ctx):
+    import os
+    import pickle
+    if os.geteuid() != 0:
+        ctx.count("chrooted_skipped_not_root")
+        return []
+    spec = [["readme.txt", "f", "hello\n"], ["docs/a b.txt", "f", "a\n"], ["docs/sub/deep.txt", "f", "deep\n"],
+            ["menu/gophermap", "f", "Welcome\n1Back to the main menu\t/\n0Read me\t/readme.txt\n1Docs\t/docs\n"],
+            ["docs/.Links", "f", "Name=Top\nType=1\nPath=/\nHost=+\nPort=+\n"], ["box.mbox", "f", sites.mbox_text(["one"])]]
+    d, root = world.build(spec)
+    try:
+        forms = ["gopher", "http", "gemini", "spartan", "wap"]
+        cfg = drive.make_config(root, "shipped", **{"handlers.dir.DirHandler::cachetime": "0"})
+        for f in forms:
+            crawl(cfg, f, False)  # outside the chroot first: everything the requests import is loaded
+        rd, wr = os.pipe()
+        pid = os.fork()
+        if pid == 0:
+            try:
+                os.close(rd)
+                out = {}
+                try:
+                    os.chroot(root)
+                    os.chdir("/")
+                    cfg.set("pygopherd", "root", "/")
+                    for f in forms:
+                        reached, ff, nreq = crawl(cfg, f, False)
+                        out[f] = (sorted(reached), [(x.sig, x.msg) for x in ff], nreq)
+                except BaseException as e:  # noqa
+                    out["error"] = repr(e)
+                blob = pickle.dumps(out)
+                while blob:
+                    blob = blob[os.write(wr, blob):]
+            finally:
+                os._exit(0)
+        os.close(wr)
+        chunks = []
+        while True:
+            b_ = os.read(rd, 65536)
+            if not b_:
+                break
+            chunks.append(b_)
+        os.close(rd)
+        os.waitpid(pid, 0)
+        out = pickle.loads(b"".join(chunks)) if chunks else {"error": "no result"}
+        if "error" in out:
+            if "Operation not permitted" in out["error"]:
+                ctx.count("chrooted_skipped_not_permitted")
+                return []
+            raise RuntimeError("chrooted crawl failed: %s" % out["error"])
+        ctx.nontriv(("chrooted",))
+        ctx.label("chrooted-root-is-slash")
+        ctx.sample({"chrooted": True, "forms": forms}, cls="chrooted")
+        want = {b"/", b"/readme.txt", b"/docs", b"/docs/a b.txt", b"/docs/sub", b"/docs/sub/deep.txt", b"/menu", b"/box.mbox", b"/box.mbox|/MBOX-MESSAGE/1"}
+        fails = []
+        for f in forms:
+            reached, ff, nreq = out[f]
+            ctx.count("requests", nreq)
+            for sig, msg in ff:
+                fails.append(Fail("chrooted:" + sig, "with the server chrooted into the site (root = '/'): " + msg))
+            missing = sorted(want - set(reached) - {b"/"})
+            if not ff and missing:
+                fails.append(Fail("chrooted:unreached:%s" % clients.FORMS[f][1], "with the server chrooted into the site (root = '/') the %s crawl "
+                                                                              "never reaches %r" % (f, missing[0])))
+        seen, res = set(), []
+        for x in fails:
+            if x.sig not in seen:
+                seen.add(x.sig)
+                res.append(x)
+        return res
+    finally:
+        world.rmtree(d)
+
+
 def check_case(case, ctx):
+    if case.get("mode") == "chrooted":
+        return _check_chrooted(case, ctx)
     full = case["full"]
     items = case["site"]
     spec = sites.to_spec(items)
